@@ -241,7 +241,13 @@ RE_TOKENS = [BULLET, "100.0", "100.00", "100x0", "1000", "10000", "100", "100.",
              "é", "²", ",", ".", "1.", "1x", "x1", "100.0x", BULLET + "A", "A" + BULLET, "5", "55", "..", "0,0"]
 
 
+RE_ALPHABET = [" ", " ", "\t", BULLET, "1", "0", "0", ".", ",", "x", "5", "\n", "\u00a0", "\r"]
+
+
 def gen_re_string(rng):
+    if rng.random() < 0.35:
+        # short strings over a small alphabet: dense in near-misses
+        return "".join(rng.choice(RE_ALPHABET) for _ in range(rng.randrange(0, 14)))
     n = rng.choice([0, 1, 2, 2, 3, 3, 4, 5, 7])
     s = rng.choice(["", "", " ", "\t ", "    "])
     for i in range(n):
@@ -280,6 +286,14 @@ FILLER = ["Leading garbage", "Account summary\nnothing here", "", "Securities Ow
 
 
 def gen_month_page(rng):
+    if rng.random() < 0.6:
+        m = rng.choice(MONTHS[:17])
+        d = rng.choice(["28", "1", "15", "05", "12"])
+        y = rng.choice(["2024", "2023", "1999", "2100", "02024"])
+        key = rng.choice(["Current month:", "Current month:", "CURRENT MONTH:", "current Month:"])
+        pre = rng.choice(["Account #:  1234 ", "", "\n", "(", "-", "Account #:  1234 "])
+        sep = rng.choice(["  ", " ", "\n", "\t", " \n "])
+        return "Leading garbage\n" + pre + key + sep + m + " " + d + ", " + y + rng.choice([" trailing garbage", "", "\n"])
     m = rng.choice(MONTHS)
     d = rng.choice(["28", "1", "31", "30", "29", "0", "05", "300", "12"])
     y = rng.choice(["2024", "2023", "1999", "2100", "0", "99999", "3000000000", "2024"])
